@@ -198,7 +198,10 @@ func cmdAttach(a Args) {
 				var got []uint64
 				switch c := cv.(type) {
 				case *atree.Array:
-					_ = c.IterateReadOnly(func(v atree.Value) (bool, error) { got = append(got, uint64(v.(testutils.Uint64Value))); return true, nil })
+					_ = c.IterateReadOnly(func(v atree.Value) (bool, error) {
+						got = append(got, uint64(v.(testutils.Uint64Value)))
+						return true, nil
+					})
 				case *atree.OrderedMap:
 					for i := range want {
 						v, err := c.Get(testutils.CompareValue, testutils.GetHashInput, testutils.Uint64Value(uint64(i)))
